@@ -134,6 +134,40 @@ def run_case(task):
     res['wall'] = round(time.time() - t0, 2)
     return res
 
+def _child(task, conn):
+    try: conn.send(run_case(task))
+    except Exception as e:
+        conn.send(dict(id=task[1], case=list(task[2]), verdict='ENCODING-ERROR', violations=[], undecided=[('exception', traceback.format_exc()[-1500:])], stats={}, reached={}, called=[], axioms=[], validated=0, validation_mismatch=[], wall=0, samples=[]))
+    conn.close()
+
+def run_tasks(tasks, jobs, obs, tier):
+    """one process per obligation case, at most `jobs` at a time; a case that overruns its hard cap is killed and reported UNDECIDED"""
+    obmap = {o['id']: o for o in obs}
+    pending = list(tasks); running = []
+    while pending or running:
+        while pending and len(running) < jobs:
+            t = pending.pop(0); pc, cc = multiprocessing.Pipe(False)
+            p = multiprocessing.Process(target=_child, args=(t, cc)); p.start(); cc.close()
+            cap = obmap[t[1]].get('time_cap', 280 if tier == 'quick' else 2400)
+            running.append((p, pc, t, time.time(), cap * 1.3 + 60))
+        time.sleep(0.05)
+        still = []
+        for p, pc, t, t0, hard in running:
+            if pc.poll():
+                try: r = pc.recv()
+                except EOFError: r = None
+                p.join(5)
+                if r is None: r = dict(id=t[1], case=list(t[2]), verdict='UNDECIDED', violations=[], undecided=[('crash', 'worker died (memory cap?)')], stats={}, reached={}, called=[], axioms=[], validated=0, validation_mismatch=[], wall=round(time.time() - t0, 1), samples=[])
+                yield r
+            elif not p.is_alive():
+                p.join(1)
+                yield dict(id=t[1], case=list(t[2]), verdict='UNDECIDED', violations=[], undecided=[('crash', 'worker died without a result (memory cap?)')], stats={}, reached={}, called=[], axioms=[], validated=0, validation_mismatch=[], wall=round(time.time() - t0, 1), samples=[])
+            elif time.time() - t0 > hard:
+                p.kill(); p.join(5)
+                yield dict(id=t[1], case=list(t[2]), verdict='UNDECIDED', violations=[], undecided=[('TIME-CAP', 'hard time cap: worker killed after %ds' % int(hard))], stats={}, reached={}, called=[], axioms=[], validated=0, validation_mismatch=[], wall=round(time.time() - t0, 1), samples=[])
+            else: still.append((p, pc, t, t0, hard))
+        running = still
+
 def load_known():
     out = []
     p = os.path.join(VERIF, 'known_findings.jsonl')
@@ -198,11 +232,10 @@ def main(argv):
         cases = o.get('cases_thorough', o.get('cases', [()])) if tier == 'thorough' else o.get('cases', [()])
         for c in cases: tasks.append((prop, o['id'], tuple(c), ll, native, scratch, tier))
     if tasks:
-        with multiprocessing.Pool(min(a.jobs, len(tasks))) as pool:
-            for r in pool.imap_unordered(run_case, tasks, chunksize=1):
-                results.append(r)
-                print('  [%s%s] %s  paths=%s queries=%s wall=%ss%s' % (r['id'], r['case'] or '', r['verdict'], r['stats'].get('paths'), r['stats'].get('queries'), r['wall'],
-                      ('  ' + '; '.join('%s: %s' % (u[0], (str(u[1]) if r['verdict']=='ENCODING-ERROR' else str(u[1]).split('\n')[0][:160])) for u in r['undecided'][:2])) if r['undecided'] else ''), flush=True)
+        for r in run_tasks(tasks, a.jobs, obs, tier):
+            results.append(r)
+            print('  [%s%s] %s  paths=%s queries=%s wall=%ss%s' % (r['id'], r['case'] or '', r['verdict'], r['stats'].get('paths'), r['stats'].get('queries'), r['wall'],
+                  ('  ' + '; '.join('%s: %s' % (u[0], (str(u[1]) if r['verdict']=='ENCODING-ERROR' else str(u[1]).split('\n')[0][:160])) for u in r['undecided'][:2])) if r['undecided'] else ''), flush=True)
     # optional non-llsym engines (astx, cbmc cross-checks) contributed by the property module
     if hasattr(spec, 'extra_checks'):
         for r in spec.extra_checks(tier, scratch):
